@@ -51,6 +51,9 @@ func (c12) Cases(tier string, seed int64, kf *KnownFindings) []Case {
 					}
 					add(Case{Kind: "conc", N: n, M: procs, K: inst, Seed: Mix(seed, i), Count: calls})
 					add(Case{Kind: "conc", N: n, M: procs, K: inst, Seed: Mix(seed, 7000+i), Count: raceCalls, Opt: []string{"race"}})
+					if n >= 16 {
+						add(Case{Kind: "conc", N: n, M: procs, K: inst, Seed: Mix(seed, 9000+i), Count: calls, Opt: []string{"lists"}})
+					}
 				}
 			}
 		}
@@ -67,6 +70,7 @@ type corpusEntry struct {
 	wire    []byte      // decode input (shared, read-only)
 	expect  string      // expected result class
 	what    string
+	long    bool // a list with a declared length of 65..1024
 }
 
 var instKinds = []string{"NewSerializer", "NewEncoder+NewDecoder", "pools"}
@@ -211,6 +215,38 @@ func buildCorpus(seed int64, env *Env, tm map[string]reflect.Type, nm map[string
 		ls := strings.Repeat(string(rune('A'+k)), 3000)
 		corpus = append(corpus, corpusEntry{encode: true, val: ls, what: "encode top-level long string"})
 	}
+	// single-chunk byte arrays of 256..4096 bytes (a decoder might hand out slices of its input: the
+	// concurrent phase overwrites every byte array it gets back, as a caller who owns its result may)
+	for k := 0; k < 8; k++ {
+		n := []int{256, 300, 1000, 1024, 2000, 4000, 4095, 4096}[k]
+		for _, v := range []interface{}{bytes.Repeat([]byte{byte(0x10 + k)}, n), &zoo.Scalars{S: "k", Bin: bytes.Repeat([]byte{byte(0x20 + k)}, n)}, &zoo.SlBin{V: [][]byte{bytes.Repeat([]byte{byte(0x30 + k)}, n), {1}}}} {
+			if b, err := hessian.ToBytes(v, copyNames(nm)); err == nil {
+				corpus = append(corpus, corpusEntry{wire: b, what: fmt.Sprintf("decode %d-byte binary", n)})
+			}
+		}
+	}
+	// lists whose declared length lies in 65..1024 (whatever a decoder reserves for a declared length
+	// must not be a budget shared between the decoders of a process)
+	for k := 0; k < 12; k++ {
+		n := []int{65, 100, 500, 900, 1000, 1024}[k%6]
+		var v interface{}
+		if k < 6 {
+			l := make([]int32, n)
+			for i := range l {
+				l[i] = int32(i * k)
+			}
+			v = &zoo.SlInt32{V: l}
+		} else {
+			l := make([]string, n)
+			for i := range l {
+				l[i] = fmt.Sprintf("s%d", i)
+			}
+			v = &zoo.SlStr{V: l}
+		}
+		if b, err := hessian.ToBytes(v, copyNames(nm)); err == nil {
+			corpus = append(corpus, corpusEntry{wire: b, long: true, what: fmt.Sprintf("decode list of %d", n)})
+		}
+	}
 	// messages naming classes the type map does not know, under many different qualified names
 	for k := 0; k < 60; k++ {
 		o := hspec.Object(fmt.Sprintf("p%dx%d.Inner", k%7, k), []string{"a", "s"}, hspec.Int(int32(k)), hspec.String("q"))
@@ -264,7 +300,45 @@ func (in *instance) run(e *corpusEntry, multi bool) string {
 	if e.damaged && pi == nil && err == nil {
 		return "value"
 	}
-	return resultClassDec(v, err, pi)
+	cls := resultClassDec(v, err, pi)
+	if pi == nil && err == nil {
+		// the caller owns what a decode returns: overwrite every byte array in it. If the result
+		// shares memory with the (shared, read-only) input, later decodes of that input differ.
+		scribbleBytes(reflect.ValueOf(v), 0)
+	}
+	return cls
+}
+
+func scribbleBytes(v reflect.Value, depth int) {
+	if !v.IsValid() || depth > 6 {
+		return
+	}
+	switch v.Kind() {
+	case reflect.Interface, reflect.Ptr:
+		if !v.IsNil() {
+			scribbleBytes(v.Elem(), depth+1)
+		}
+	case reflect.Struct:
+		if v.Type() == zoo.TimeType {
+			return
+		}
+		for i := 0; i < v.NumField(); i++ {
+			scribbleBytes(v.Field(i), depth+1)
+		}
+	case reflect.Slice:
+		if v.Type().Elem().Kind() == reflect.Uint8 {
+			if v.CanSet() || v.Len() > 0 {
+				b := v.Bytes()
+				for i := range b {
+					b[i] = 0xEE
+				}
+			}
+			return
+		}
+		for i := 0; i < v.Len() && i < 8; i++ {
+			scribbleBytes(v.Index(i), depth+1)
+		}
+	}
 }
 
 func (c12) Run(c Case, env *Env) Result {
@@ -282,7 +356,13 @@ func (c12) Run(c Case, env *Env) Result {
 		if corpus[i].encode {
 			multi[i] = hasMultiEntryMap(reflect.ValueOf(corpus[i].val), 0)
 		}
+		wireBefore := append([]byte(nil), corpus[i].wire...)
 		corpus[i].expect = seq.run(&corpus[i], multi[i])
+		if !bytes.Equal(wireBefore, corpus[i].wire) {
+			// run() overwrote the byte arrays of the RESULT; the shared input changed with them
+			env.Viol(&res, Violation{Class: "result-aliases-shared-input", Features: feats, Detail: corpus[i].what + ": overwriting the byte arrays of the decoded value changed the input bytes, which other instances decode at the same time", Case: cc})
+			copy(corpus[i].wire, wireBefore)
+		}
 		// an entry must be deterministic when run alone, otherwise it cannot serve as an oracle
 		if again := (&instance{ser: hessian.NewSerializer(tm, nm)}).run(&corpus[i], multi[i]); again != corpus[i].expect {
 			corpus[i].expect = ""
@@ -311,6 +391,23 @@ func (c12) Run(c Case, env *Env) Result {
 	if per < 10 {
 		per = 10
 	}
+	// "lists" cases: every call decodes a list with a declared length of 65..1024, so that many
+	// decoders are inside such a list at the same moment
+	listsOnly := false
+	for _, o := range c.Opt {
+		if o == "lists" {
+			listsOnly = true
+		}
+	}
+	var longIdx []int
+	for i := range corpus {
+		if corpus[i].long && corpus[i].expect != "" {
+			longIdx = append(longIdx, i)
+		}
+	}
+	if len(longIdx) == 0 {
+		listsOnly = false
+	}
 	var wg sync.WaitGroup
 	start := make(chan struct{})
 	for g := 0; g < c.N; g++ {
@@ -328,6 +425,9 @@ func (c12) Run(c Case, env *Env) Result {
 			<-start
 			for i := 0; i < per; i++ {
 				k := r.Intn(len(corpus))
+				if listsOnly {
+					k = longIdx[r.Intn(len(longIdx))]
+				}
 				e := &corpus[k]
 				if e.expect == "" {
 					continue
